@@ -270,11 +270,13 @@ func (this *DatasetManager) processSnapshot(data []byte) error {
 		return err
 	}
 
+	snapshotIds := make(map[uuid.UUID]struct{})
 	for _, dataset := range dmSnapshot.Datasets {
 		id, err := uuid.FromBytes(dataset.GetId())
 		if err != nil {
 			return err
 		}
+		snapshotIds[id] = struct{}{}
 		if _, exists := this.datasets[id]; !exists {
 			this.datasets[id], err = newDataset(id, *dataset, this.raftWalDB, this.raftTransport, this.clusterConn, this)
 			if err != nil {
@@ -285,6 +287,15 @@ func (this *DatasetManager) processSnapshot(data []byte) error {
 				// a log of a group yet must join it and must not bootstrap a log of its own.
 				this.allocator.watch(partition, false)
 			}
+		}
+	}
+	// Datasets whose deletion is covered by the snapshot
+	for id, dataset := range this.datasets {
+		if _, exists := snapshotIds[id]; !exists {
+			for _, partition := range dataset.partitions {
+				this.allocator.unwatch(partition.id)
+			}
+			delete(this.datasets, id)
 		}
 	}
 	return nil
